@@ -29,6 +29,17 @@ impl<H: HashChain> HssParameter<H> {
         }
     }
 
+    /// Like [`HssParameter::new`], but returns `None` for reserved / unknown algorithms.
+    pub(crate) fn try_new(
+        lmots_parameter: LmotsAlgorithm,
+        lms_parameter: LmsAlgorithm,
+    ) -> Option<Self> {
+        Some(HssParameter {
+            lmots_parameter: lmots_parameter.construct_parameter()?,
+            lms_parameter: lms_parameter.construct_parameter()?,
+        })
+    }
+
     pub fn get_lmots_parameter(&self) -> &LmotsParameter<H> {
         &self.lmots_parameter
     }
